@@ -1050,6 +1050,7 @@ func (ex *Exec) leave(h *NodeH, why string) {
 // by the node itself, or RequestToLeave. [start, reply] are the logical stamps
 // of the handler's start and end: the lock was taken somewhere in between.
 type admission struct {
+	relStart int64 // stamp at which the handler of the releasing FinishJoin / FinishLeave started
 	kind         string // join | leave
 	peer         uint64 // joiner / leaver id
 	start, reply int64
@@ -1118,8 +1119,11 @@ func (ex *Exec) observeMembership(call simnet.Call) {
 			return
 		}
 		mine.released = true
+		mine.relStart = call.Start
 		for _, b := range ex.adm[call.To] {
-			if b != mine && b.start > mine.reply && b.reply < call.Start {
+			// both changes had been admitted (their handlers had answered) before the release of either began:
+			// whichever order their handlers started in, the node held two membership changes at once
+			if b != mine && b.reply < call.Start && (!b.released || b.relStart > mine.reply) {
 				simrt.Probe("membership-overlap-admitted")
 				nh := ex.c.ByName(call.To)
 				ex.res.Violate("C06", "second-change-admitted", "node %s admitted the %s of node %d (handler stamps [%d,%d]) while the %s of node %d held it (admitted at stamp %d, release handler started at %d); state history of %s: %v",
